@@ -379,3 +379,43 @@ package raft
 //@   flags inline lockheld
 //@ func operationManager.markAsVerified
 //@   flags inline
+
+//@ func Raft.electionLoop
+
+// ===========================================================================================
+// Restore (C02, C08, C14)
+// ===========================================================================================
+
+//@ iface Log.Open() (err)
+//@   modifies Lfirst, Llast, Lterm, Ltyp, Ldata
+//@ iface Log.Replay() (err)
+//@   modifies Lfirst, Llast, Lterm, Ltyp, Ldata
+//@   ensures err == nil ==> 0 <= Lfirst && Lfirst <= Llast
+//@ iface Log.Close() (err)
+//@ iface SnapshotStorage.SnapshotFile() (file, err)
+//@ iface SnapshotStorage.NewSnapshotFile(lastIncludedIndex, lastIncludedTerm, configuration) (file, err)
+//@   ensures ioOK ==> err == nil
+//@   ensures err == nil ==> file != nil
+//@ iface SnapshotFile.Metadata() (md)
+//@ iface StateMachine.Restore(snapshotReader) (err)
+//@ iface StateMachine.Snapshot(snapshotWriter) (err)
+//@ iface StateMachine.NeedSnapshot(logSize) (result)
+//@ iface StateMachine.Apply(operation) (result)
+//@ iface Transport.DecodeConfiguration(data) (configuration, err)
+//@   ensures ioOK ==> err == nil
+//@   ensures err == nil ==> configuration.Members != nil && configuration.IsVoter != nil
+//@ iface Transport.EncodeConfiguration(configuration) (data, err)
+//@   ensures ioOK ==> err == nil
+//@ iface Transport.Address() (result)
+//@ iface Transport.Run() (err)
+//@ iface Transport.Shutdown() (err)
+//@ iface Transport.RegisterAppendEntriesHandler(handler) ()
+//@ iface Transport.RegisterRequestVoteHandler(handler) ()
+//@ iface Transport.RegsiterInstallSnapshotHandler(handler) ()
+
+//@ func Configuration.Clone
+//@   flags inline
+
+//@ func Raft.restore
+//@   requires r.log != nil && r.stateStorage != nil && r.snapshotStorage != nil && r.transport != nil && r.fsm != nil
+//@   ensures [term-vote] err == nil ==> r.currentTerm == persTerm && r.votedFor == persVote
